@@ -33,10 +33,11 @@ impl<'a> CheckParams for Grammar<'a> {
             ));
         }
         let ux = x as usize;
-        if ux > self.conn_matrix().num_left() {
+        // left id of a word is the second index of the connection matrix
+        if ux > self.conn_matrix().num_right() {
             return Err(SudachiError::InvalidDataFormat(
                 ux,
-                format!("max grammar leftId is {}", self.conn_matrix().num_left()),
+                format!("max grammar leftId is {}", self.conn_matrix().num_right()),
             ));
         }
         return Ok(x as u16);
@@ -51,10 +52,11 @@ impl<'a> CheckParams for Grammar<'a> {
             ));
         }
         let ux = x as usize;
-        if ux > self.conn_matrix().num_right() {
+        // right id of a word is the first index of the connection matrix
+        if ux > self.conn_matrix().num_left() {
             return Err(SudachiError::InvalidDataFormat(
                 ux,
-                format!("max grammar rightId is {}", self.conn_matrix().num_right()),
+                format!("max grammar rightId is {}", self.conn_matrix().num_left()),
             ));
         }
         return Ok(x as u16);
